@@ -5487,6 +5487,10 @@ class PyCdlib:
         if self.eltorito_boot_catalog is None:
             raise pycdlibexception.PyCdlibInvalidInput('This ISO does not have an El Torito Boot Record')
 
+        if self.isohybrid_mbr is not None:
+            # The isohybrid MBR boots the El Torito default entry.
+            raise pycdlibexception.PyCdlibInvalidInput('This ISO is an isohybrid; remove that first with rm_isohybrid')
+
         for brindex, br in enumerate(self.brs):
             if br.boot_system_identifier == b'EL TORITO SPECIFICATION'.ljust(32, b'\x00'):
                 eltorito_index = brindex
